@@ -61,3 +61,49 @@ func queueReplay(args []string) {
 	f.Close()
 	fmt.Printf("DONE schedules=%d ok=%d drift=%d stuck=%d\n", len(job.Schedules), counts["ok"], counts["drift"], counts["stuck"])
 }
+
+func init() {
+	extras["pipe-replay"] = pipeReplay
+}
+
+// pipe-replay: force call-level schedules of spec/Pipes.tla onto the real
+// Fork / Split / Join pipelines.
+func pipeReplay(args []string) {
+	var fs = flag.NewFlagSet("pipe-replay", flag.ExitOnError)
+	var jobf = fs.String("job", "", "job file (json)")
+	var out = fs.String("out", "", "result file (ndjson)")
+	var timeout = fs.Duration("timeout", 500*time.Millisecond, "per-step timeout")
+	fs.Parse(args)
+	var data, err = os.ReadFile(*jobf)
+	if err != nil {
+		fmt.Fprintln(os.Stderr, err)
+		os.Exit(2)
+	}
+	var job qsched.PJob
+	if err := json.Unmarshal(data, &job); err != nil {
+		fmt.Fprintln(os.Stderr, "bad job:", err)
+		os.Exit(2)
+	}
+	var f, _ = os.Create(*out)
+	var w = bufio.NewWriter(f)
+	var counts = map[string]int{}
+	var aborted = false
+	for i, sc := range job.Schedules {
+		if !aborted && counts["drift"] > 20 && counts["drift"]*2 > i {
+			aborted = true
+		}
+		var r qsched.PResult
+		if aborted {
+			r = qsched.PResult{ID: sc.ID, Status: "skipped"}
+		} else {
+			r = qsched.RunPipeSchedule(&job, sc, *timeout)
+		}
+		counts[r.Status]++
+		var b, _ = json.Marshal(r)
+		w.Write(b)
+		w.WriteByte('\n')
+	}
+	w.Flush()
+	f.Close()
+	fmt.Printf("DONE schedules=%d ok=%d drift=%d\n", len(job.Schedules), counts["ok"], counts["drift"])
+}
